@@ -245,6 +245,26 @@ def check_lifecycle(ctx: Ctx, rule_prefix: str, want: Set[str]):
                     rep.ob(f"{rule_prefix}.{asp}", ev.msg, False, node=ev.node, path=ev.trace,
                            detail=f"abstract state (loc, slot, cancel_cb, end_cb, cancelled) = {ev.state[:5]}")
                     break
+        if ctx.tier == "thorough":
+            from ..absint import enumerate_paths
+            total = 0
+            end_states: Set = set()
+            trunc = False
+            lc2 = Lifecycle(ctx, w)
+            for st0 in lc2.init_states():
+                ends, n_paths, tr = enumerate_paths(lc2.ai, w, st0)
+                total += n_paths
+                trunc = trunc or tr
+                for (k, st_end), c in ends.items():
+                    end_states.add((k, st_end))
+            fix = {(k, s) for k, v in exits.items() for s in v}
+            rep.analysed["lifecycle"][w.qual]["paths_enumerated"] = total
+            rep.analysed["lifecycle"][w.qual]["path_end_states"] = len(end_states)
+            rep.analysed["lifecycle"][w.qual]["enumeration_truncated"] = trunc
+            agree = end_states <= fix and (trunc or fix <= end_states)
+            rep.ob(f"{rule_prefix}.paths", "explicit enumeration of every acyclic path through the inlined life-cycle graph (fault injected at every suspension step and "
+                   "user-code call) reaches exactly the end states of the fixpoint analysis", True if agree else None, func=w,
+                   construct=f"{total} paths, {len(end_states)} distinct end states", detail="" if agree else f"fixpoint has {len(fix)} end states, enumeration {len(end_states)}")
         for key, states in sorted(exits.items(), key=str):
             kind = "return" if key[0] == "ret" else f"{'cancellation' if key[0] == 'c' else 'exception'} {key[1][0].rpartition('.')[2]}"
             for st in sorted(states, key=str):
